@@ -116,10 +116,10 @@ func Project(g *d2graph.Graph) *PBoard {
 		sh, _ := attrsNoLabel(e.SrcArrowhead)
 		dh, _ := attrsNoLabel(e.DstArrowhead)
 		// an arrowhead that carries only defaults is the same as none
-		if sh == emptyAttrs && e.SrcArrowhead.Label.Value == "" {
+		if sh == emptyAttrs {
 			sh = "null"
 		}
-		if dh == emptyAttrs && e.DstArrowhead.Label.Value == "" {
+		if dh == emptyAttrs {
 			dh = "null"
 		}
 		shl, dhl := "", ""
